@@ -50,6 +50,8 @@ class ListWalk:
             if e.id in self.env:
                 return self.env[e.id]
             raise AnalysisError(f"list walker: free name {e.id}")
+        if isinstance(e, ast.Attribute) and norm(e) in self.env:
+            return self.env[norm(e)]          # a dotted path bound as a variable (top._sched.index)
         if isinstance(e, (ast.List, ast.Tuple, ast.Set)):
             out = []
             for x in e.elts:
@@ -142,7 +144,7 @@ class ListWalk:
             n = f.id
             if n == 'isinstance' and len(e.args) == 2:
                 return self.isinst(self.ev(e.args[0]), e.args[1])
-            args = [self.ev(a) for a in e.args]
+            args = [self.ev(a) for a in e.args if not isinstance(a, ast.Starred)]
             if n in self.funcs:
                 fn = self.funcs[n]
                 if isinstance(fn, ast.FunctionDef):
@@ -153,6 +155,8 @@ class ListWalk:
                       'sorted': sorted, 'any': any, 'all': all, 'deque': list, 'iter': list}
             if n in simple:
                 return simple[n](*args)
+            if n in self.env and callable(self.env[n]):
+                return self.env[n](*args)
             raise AnalysisError(f"list walker: call outside the vocabulary: {norm(e)[:80]}")
         if isinstance(f, ast.Attribute):
             recv = self.ev(f.value)
@@ -170,6 +174,10 @@ class ListWalk:
                 if m == 'update':
                     return recv.update(set(args[0]))
                 return getattr(recv, m)(*args)
+        if isinstance(f, (ast.Subscript, ast.Attribute)):
+            fn = self.ev(f)
+            if callable(fn):
+                return fn(*[self.ev(a) for a in e.args if not isinstance(a, ast.Starred)])
         raise AnalysisError(f"list walker: call outside the vocabulary: {norm(e)[:80]}")
 
     def invoke(self, fn, args):
@@ -195,6 +203,8 @@ class ListWalk:
                 self.bind(tt, vv)
         elif isinstance(t, ast.Subscript):
             self.ev(t.value)[self.ev(t.slice)] = v
+        elif isinstance(t, ast.Attribute) and norm(t) in self.env:
+            self.env[norm(t)] = v
         else:
             raise AnalysisError(f"list walker: assignment target outside the vocabulary: {norm(t)}")
 
@@ -227,6 +237,10 @@ class ListWalk:
                 v = self.ev(st.value)
                 for t in st.targets:
                     self.bind(t, v)
+            elif isinstance(st, ast.AugAssign) and isinstance(st.target, ast.Attribute) and norm(st.target) in self.env and \
+                    isinstance(st.op, (ast.Add, ast.Sub)) and isinstance(self.env[norm(st.target)], int):
+                v = self.ev(st.value)
+                self.env[norm(st.target)] += v if isinstance(st.op, ast.Add) else -v
             elif isinstance(st, ast.AugAssign) and isinstance(st.target, ast.Name):
                 cur, v = self.env[st.target.id], self.ev(st.value)
                 if isinstance(st.op, ast.Add):
